@@ -193,7 +193,30 @@ class Emit(object):
             nm, val = l.split("::", 1)[1].split("=", 1)
             forder.append(fidx.get(nm.strip().lower(), 0))
             fout.append(tokenize(val, fidx))
-        return {"members": members, "cout": cout, "fout": fout, "corder": corder, "forder": forder,
+        # the parser's own tree of every value expression, printed with every operation parenthesised
+        def full(n_):
+            k = type(n_).__name__
+            if k == "BinaryOp":
+                return "(" + full(n_.left) + " " + n_.op + " " + full(n_.right) + ")"
+            if k == "UnaryOp":
+                return "(" + n_.op + " " + full(n_.node) + ")"
+            if k == "ParenExpr":
+                return full(n_.node)
+            if k == "Constant":
+                return str(n_.value)
+            if k == "Identifier":
+                return n_.name
+            raise MachineryError("unknown expression node " + k)
+        nidx = {nm.lower(): j + 1 for j, nm in enumerate(names)}
+        tree = []
+        for j, mem in enumerate(node.ast.members):
+            if mem.value is not None:
+                tree.append(tokenize(full(mem.value), nidx))
+            elif j == 0:
+                tree.append(tokenize("0", nidx))
+            else:
+                tree.append(tokenize("(%s + 1)" % names[j - 1], nidx))
+        return {"members": members, "cout": cout, "fout": fout, "corder": corder, "forder": forder, "tree": tree,
                 "cxx": [], "decl": decl, "ctext": ctext, "ftext": ftext,
                 "cenum": [str(x) for x in self.wc.enum_impl], "fparam": ftext, "names": names,
                 "cnames": [fm[nm].C_enum_member for nm in names], "fnames": [fm[nm].F_enum_member for nm in names],
@@ -414,7 +437,7 @@ def run(tier):
         traces = [t for t in traces if fits32(t["members"])]
         controls = [t for t in controls if fits32(t["members"])]
         c.part("domain", excluded_beyond_32_bits=nbig)
-        keep = ("members", "cout", "fout", "corder", "forder", "cxx")
+        keep = ("members", "cout", "fout", "corder", "forder", "cxx", "tree")
         alltr = [{k: t[k] for k in keep} for t in traces + controls]
         verdicts, st = validate_traces("Trace_EnumValues", "Trace_EnumValues", alltr, shard=5000)
         c.add_stats(st, "trace_validation", len(traces))
